@@ -1,4 +1,5 @@
-import ClipVerif.Check.ModelProto
+import ClipVerif.Check.Proto
+import ClipVerif.Check.PropsProto
 /- `oracle`: one request per line on stdin, one answer per line on stdout (flushed). -/
 
 def parseInts (ws : List String) : Option (List Int) :=
@@ -18,17 +19,9 @@ def answer (line : String) : String :=
     match parseInts rest with
     | some ts => Proto.cover mode ts
     | none => "parse-error ints"
-  | "model" :: name :: rest =>
-    match parseInts rest with
-    | some ts => ModelProto.model name ts
-    | none => "parse-error ints"
   | "props" :: name :: rest =>
     match parseInts rest with
-    | some ts => ModelProto.props name ts
-    | none => "parse-error ints"
-  | "gen" :: fn :: rest =>
-    match parseInts rest with
-    | some ts => ModelProto.gen fn ts
+    | some ts => PropsProto.props name ts
     | none => "parse-error ints"
   | "offset" :: rest =>
     match parseInts rest with
